@@ -72,6 +72,12 @@ EDITS = [
   "                if core == rpc.FREE:", "                if core != rpc.BUSY:", '_find_resources'),
  ('find-core-idx-restart', 'C01', 'agent/scheduler/continuous.py',
   "            loop_core_idx = core_idx + 1", "            loop_core_idx = core_idx", '_find_resources'),
+ ('sched-rem-count', 'C02', 'agent/scheduler/continuous.py',
+  "        if  rem_slots > 0:\n            return None, None  # signal failure",
+  "        if  rem_slots > 1:\n            return None, None  # signal failure", 'schedule_task'),
+ ('sched-colo-ignore', 'C02', 'agent/scheduler/continuous.py',
+  "                    if node_index not in self._colo_history[colo_tag]:\n                        continue",
+  "                    if node_index not in self._colo_history[colo_tag]:\n                        pass", 'schedule_task'),
 ]
 
 
